@@ -782,6 +782,21 @@ def check_varorder(ctx):
                     orders.append([code2name.get(idx2code[i], '?') for i in sorted(idx2code)])
     if not orders or any('?' in o or not set(o) <= known for o in orders):
         raise AnalysisError('construct not understood: variable order of the cloud_rain reader (%s)' % orders)
+    # the layout probe: file sizes that fit more than one layout are read as the layout the writer produces (tried first)
+    ini = rm.func('cloud_rain.__init__')
+    probes = [l_ for l_ in ast.walk(ini) if isinstance(l_, ast.For) and isinstance(l_.iter, (ast.List, ast.Tuple)) and l_.iter.elts
+              and all(isinstance(e, ast.Constant) and isinstance(e.value, int) for e in l_.iter.elts) and any(isinstance(x, ast.Break) for x in ast.walk(l_))]
+    if probes:
+        first = probes[0].iter.elts[0].value
+        nwr = max(len([k for k in wl if k in o]) for o in orders)        # what the writer emits for a file that has every variable
+        if first == nwr:
+            ctx.ok('R-VARORDER', 'layout probe', where, 'the %d-variable layout the writer emits is tried first (%s)' % (first, norm(probes[0].iter)))
+        else:
+            ctx.violation(Finding('R-VARORDER', rm.relpath, 'cloud_rain.__init__', probes[0], 'the size probe tries the %d-variable layout before the %d-variable layout the writer emits: a written file whose '
+                                  'size also fits the other layout (small grids, e.g. 5 steps of 1 layer 2x5) is read back with the legacy variable list, other step count and garbage data'
+                                  % (first, nwr)), oid='layout probe')
+    else:
+        ctx.undec('R-VARORDER', 'layout probe', where, 'size probe of the reader not found')
     for o in orders:
         filt = [k for k in wl if k in o]
         if filt == o:
